@@ -316,3 +316,20 @@ Theorem C03_nonvacuous :
    step_eth toy_hash toy_recover ex_cfg ex_state (ex_homestead, true) = (ex_state, None)).
 Proof. exact (conj ex_accept_then_replay (conj ex_other_chain (conj ex_signable ex_unprotected))). Qed.
 Print Assumptions C03_nonvacuous.
+
+(** The cryptographic premises of the [_partial] theorems are jointly
+    satisfiable, and under them a transaction is accepted: those theorems are not
+    vacuous for want of a model of their hypotheses. *)
+Theorem C03_partial_premises_satisfiable :
+  (forall (h : list N) (r s v : Z) (a : list N), one_recover h r s v = Some a ->
+     exists (cid0 : Z) (tx0 : eth_tx), one_signed a cid0 tx0 /\ id_hash (sign_preimage cid0 tx0) = h) /\
+  (forall cid1 tx1 cid2 tx2, id_hash (sign_preimage cid1 tx1) = id_hash (sign_preimage cid2 tx2) ->
+     sign_preimage cid1 tx1 = sign_preimage cid2 tx2) /\
+  (forall a cid0 tx0, one_signed a cid0 tx0 -> signable cid0 tx0) /\
+  snd (step_eth id_hash one_recover ex_cfg (fun _ => 5%N) (ex_unsigned, true)) = Some [9%N; 9%N].
+Proof.
+  exact (conj (proj1 premises_satisfiable)
+        (conj (proj1 (proj2 premises_satisfiable))
+        (conj (proj2 (proj2 premises_satisfiable)) premises_allow_acceptance))).
+Qed.
+Print Assumptions C03_partial_premises_satisfiable.
